@@ -898,7 +898,9 @@ func Gen(r *vh.Rng, tier string, emit func(op, impl, class string, nontrivial bo
 			em.run(3+r.Intn(3), ut, d, append([]byte{0, 0, 0, byte(len(v))}, v...), false)
 		}
 	}
+	genAlloc(r, mult, emit)
 	stats = map[string]interface{}{
+		"alloc_val_max_ratio_permille": AllocMaxRatio,
 		"val_skipped_alloc_cap": em.skipped,
 		"val_alloc":             measureAlloc(),
 	}
